@@ -14,7 +14,13 @@ pub enum Op {
 	Reg { kind: u8, name: u8 },
 	RegSub { sub: u8, unsub: u8, raw: bool },
 	Alias { new: u8, existing: u8 },
-	Merge { other: Vec<Op>, via_methods: bool },
+	Merge {
+		other: Vec<Op>,
+		via_methods: bool,
+		/// a clone of the merged-in module stays alive (as when the same module is also handed to a server)
+		#[serde(default)]
+		keep_clone: bool,
+	},
 	Remove { name: u8 },
 	Snapshot,
 	Call { name: u8 },
@@ -43,7 +49,7 @@ struct St {
 }
 
 /// apply one op to (module, model); returns failures
-fn apply(st: &mut St, module: &mut RpcModule<()>, model: &mut Model, op: &Op, snaps: &mut Vec<(Methods, Model)>, fails: &mut Vec<(String, String)>, depth: u8) -> &'static str {
+fn apply(st: &mut St, module: &mut RpcModule<()>, model: &mut Model, op: &Op, snaps: &mut Vec<(Methods, Model)>, clones: &mut Vec<Methods>, fails: &mut Vec<(String, String)>, depth: u8) -> &'static str {
 	match op {
 		Op::Reg { kind, name } => {
 			let name = nm(*name);
@@ -111,7 +117,7 @@ fn apply(st: &mut St, module: &mut RpcModule<()>, model: &mut Model, op: &Op, sn
 				"alias-fails"
 			}
 		}
-		Op::Merge { other, via_methods } => {
+		Op::Merge { other, via_methods, keep_clone } => {
 			let mut om = RpcModule::new(());
 			let mut omodel = Model::new();
 			if depth < 2 {
@@ -119,14 +125,20 @@ fn apply(st: &mut St, module: &mut RpcModule<()>, model: &mut Model, op: &Op, sn
 					if matches!(o, Op::Snapshot | Op::Call { .. }) {
 						continue;
 					}
-					apply(st, &mut om, &mut omodel, o, snaps, fails, depth + 1);
+					apply(st, &mut om, &mut omodel, o, snaps, clones, fails, depth + 1);
 				}
 			}
 			let shared = omodel.keys().any(|k| model.contains_key(k));
 			let res = if *via_methods {
 				let m: Methods = om.into();
+				if *keep_clone {
+					clones.push(m.clone());
+				}
 				module.merge(m)
 			} else {
+				if *keep_clone {
+					clones.push(om.clone().into());
+				}
 				module.merge(om)
 			};
 			if res.is_ok() == shared {
@@ -231,7 +243,7 @@ fn arb_op(depth: u32) -> BoxedStrategy<Op> {
 	} else {
 		prop_oneof![
 			10 => leaf,
-			3 => (proptest::collection::vec(arb_op(depth - 1), 0..4), any::<bool>()).prop_map(|(other, via_methods)| Op::Merge { other, via_methods }),
+			3 => (proptest::collection::vec(arb_op(depth - 1), 0..4), any::<bool>(), any::<bool>()).prop_map(|(other, via_methods, keep_clone)| Op::Merge { other, via_methods, keep_clone }),
 		]
 		.boxed()
 	}
@@ -256,10 +268,11 @@ impl SubCheck for Registry {
 			let mut module = RpcModule::new(());
 			let mut model = Model::new();
 			let mut snaps: Vec<(Methods, Model)> = vec![];
+			let mut clones: Vec<Methods> = vec![];
 			let mut fails: Vec<(String, String)> = vec![];
 			let mut nontrivial = false;
 			for (i, op) in case.ops.iter().enumerate() {
-				let label = apply(&mut st, &mut module, &mut model, op, &mut snaps, &mut fails, 0);
+				let label = apply(&mut st, &mut module, &mut model, op, &mut snaps, &mut clones, &mut fails, 0);
 				obs.class(label);
 				if matches!(label, "merge-fails-on-nonempty") || (label == "subscription-fails" && !model.is_empty()) {
 					nontrivial = true;
